@@ -5,9 +5,11 @@ import (
 	"encoding/json"
 	"fmt"
 	"io"
+	"runtime/debug"
 	"strconv"
 	"strings"
 	"testing/iotest"
+	"text/scanner"
 	"time"
 
 	"github.com/alecthomas/participle/v2/lexer"
@@ -509,9 +511,19 @@ func plan(c *hx.Ctx) *hx.Plan {
 	if c.Prop == "C04" {
 		extraJobs = 1 // the text/scanner lexer
 	}
+	if c.Prop == "C07" {
+		extraJobs = 1 // a very long run of elided tokens
+		// a Next that needed stack in proportion to the number of tokens it skips would overflow this limit (a
+		// fatal error, which the supervisor attributes to the job); ordinary lexing needs a few KB
+		debug.SetMaxStack(64 << 20)
+	}
 	return &hx.Plan{
 		N: len(jobs) + extraJobs,
 		Job: func(w *hx.Worker, i int) {
+			if i >= len(jobs) && c.Prop == "C07" {
+				longElidedRun(w)
+				return
+			}
 			if i >= len(jobs) {
 				textScannerJob(w, c.Quick())
 				return
@@ -519,6 +531,9 @@ func plan(c *hx.Ctx) *hx.Plan {
 			(&explorer{prop: c.Prop, w: w}).runDef(jobs[i].fam, jobs[i].def, jobs[i].inputs)
 		},
 		Describe: func(i int) string {
+			if i >= len(jobs) && c.Prop == "C07" {
+				return "long run of elided tokens"
+			}
 			if i >= len(jobs) {
 				return "text/scanner lexer"
 			}
@@ -551,8 +566,66 @@ func textScannerInterleaved(w *hx.Worker) {
 	}
 }
 
+// longElidedRun: one Next call that has to skip 300000 elided tokens (and 300000 calls that return one each).
+func longElidedRun(w *hx.Worker) {
+	d := lexer.MustSimple([]lexer.SimpleRule{{Name: "A", Pattern: `a`}, {Name: "ws", Pattern: ` `}, {Name: "B", Pattern: `b`}})
+	for _, in := range []string{"a" + strings.Repeat(" ", 300000) + "a", strings.Repeat(" ", 300000), strings.Repeat("b", 300000) + " "} {
+		w.Count("evaluations", 1)
+		key := fmt.Sprintf("long :: %q x %d", in[len(in)/2:len(in)/2+1], len(in))
+		pan, msg := hx.Guard(func() {
+			lx, err := d.LexString("f.txt", in)
+			if err != nil {
+				panic(err)
+			}
+			n := 0
+			for {
+				t, err := lx.Next()
+				if err != nil {
+					panic(err)
+				}
+				if t.EOF() {
+					if t.Pos.Offset != len(in) {
+						panic(fmt.Sprintf("EOF at offset %d, input has %d bytes", t.Pos.Offset, len(in)))
+					}
+					break
+				}
+				n++
+				if n > len(in) {
+					panic("more tokens than bytes")
+				}
+			}
+		})
+		if pan {
+			w.Violate(hx.Violation{Key: key, Class: "panic", Detail: map[string]any{"panic": msg}})
+		}
+		w.DistinctS(key)
+	}
+}
+
+// textScannerReused: a scanner.Scanner the caller owns, initialised for one source after another and
+// handed to LexWithScanner each time: every token carries the filename given with ITS source.
+func textScannerReused(w *hx.Worker) {
+	var sc scanner.Scanner
+	sources := []struct{ name, text string }{{"one.txt", "alpha beta"}, {"two.txt", "x\n 12 \"s\""}, {"", "gamma"}, {"four.txt", "日 é z"}}
+	for _, src := range sources {
+		w.Count("evaluations", 1)
+		sc.Init(strings.NewReader(src.text))
+		lx := lexer.LexWithScanner(src.name, &sc)
+		toks, err := lexer.ConsumeAll(lx)
+		if err != nil {
+			continue
+		}
+		r := lexdrive.Run{Toks: toks[:len(toks)-1], EOF: &toks[len(toks)-1]}
+		if d := lexdrive.CheckLossless(src.text, src.name, r, false, true); d != "" {
+			w.Violate(hx.Violation{Key: fmt.Sprintf("text/scanner :: LexWithScanner with a re-initialised scanner :: file=%q in=%q", src.name, src.text), Class: "position-or-text", Detail: map[string]any{"what": d}})
+			return
+		}
+	}
+}
+
 func textScannerJob(w *hx.Worker, quick bool) {
 	textScannerInterleaved(w)
+	textScannerReused(w)
 	alpha := []string{"a", "1", " ", "\n", "\r", "é", "日", "\"", "/", "*"}
 	ml := 5
 	if quick {
@@ -578,6 +651,11 @@ func replay(c *hx.Ctx, k string) []hx.Violation {
 	w := hx.NewReplayWorker()
 	if parts[0] == "text/scanner" {
 		textScannerJob(w, false)
+		return w.Violations()
+	}
+	if parts[0] == "long" || strings.HasPrefix(k, "job:") {
+		debug.SetMaxStack(64 << 20)
+		longElidedRun(w)
 		return w.Violations()
 	}
 	if len(parts) < 3 {
